@@ -26,6 +26,7 @@ fn main() {
         }
     }
     install_panic_hook();
+    fips204_verif::engine::start_watchdog();
     let t0 = Instant::now();
     if cmd == "featref" {
         // vcheck featref <seed> <cases>: the C17 KAT digests computed by the reference model
